@@ -206,7 +206,19 @@ func c11GenProgram(rt *rapid.T) []byte {
 		case 0, 1: // write a byte to an interesting address
 			a := rapid.SampledFrom([]int{0x0000, 0x1fff, 0x2000, 0x2100, 0x3000, 0x4000, 0x5fff, 0x6000, 0x7fff, 0xa000, 0xbfff, 0xff40, 0xff41, 0xff45, 0xff46, 0xff04, 0xff05, 0xff07, 0xff0f, 0xffff,
 				0xff10, 0xff14, 0xff19, 0xff1a, 0xff1e, 0xff23, 0xff26, 0xff30, 0xfe00, 0xfe9f, 0xfea0, 0x8000, 0x9fff, 0xff00, 0xff01, 0xff4a, 0xff4b}).Draw(rt, "addr")
-			code = append(code, 0x3e, rapid.Byte().Draw(rt, "v"), 0xea, byte(a), byte(a>>8))
+			v := rapid.Byte().Draw(rt, "v")
+			if a < 0x2000 && rapid.Bool().Draw(rt, "enable") {
+				v = v&0xf0 | 0x0a // cartridge RAM enable
+			}
+			code = append(code, 0x3e, v, 0xea, byte(a), byte(a>>8))
+			if rapid.IntRange(0, 3).Draw(rt, "readback") == 0 {
+				// read something back into A (and keep it in a register that nothing below overwrites at once)
+				r := rapid.SampledFrom([]int{0xa000, 0xa001, 0xa1ff, 0xbfff, 0x4000, 0x7fff, 0xff05, 0xff0f, 0xff41, 0xff44, 0xff26, 0xfe00, 0x8000, 0xc000}).Draw(rt, "raddr")
+				code = append(code, 0xfa, byte(r), byte(r>>8), rapid.SampledFrom([]byte{0x47, 0x4f, 0x57, 0x5f, 0x67, 0x6f, 0xe0}).Draw(rt, "keep"))
+				if code[len(code)-1] == 0xe0 {
+					code = append(code, 0x01) // ... or send it out on the serial port
+				}
+			}
 		case 2: // pointer into a hardware region
 			a := rapid.SampledFrom([]int{0xfe00, 0xfe08, 0xfe9c, 0xfea0, 0xfeff, 0x8000, 0xa000, 0xbffe, 0xff00, 0xff46, 0x7ffe, 0x0000}).Draw(rt, "ptr")
 			code = append(code, rapid.SampledFrom([]byte{0x01, 0x11, 0x21, 0x31}).Draw(rt, "ldrr"), byte(a), byte(a>>8))
